@@ -230,8 +230,12 @@ func (c *Client) handlePacket(pktx pkts.Packet) error {
 		transactionx, _ := c.transactions.Get(pkt.MessageID())
 		transaction, ok := transactionx.(*brokerPublishQOS2Transaction)
 		if !ok {
-			c.log.Error("Unexpected transaction type %T for packet: %v", transactionx, pkt)
-			return nil
+			// The exchange is already finished: our PUBCOMP was lost and
+			// the gateway retransmits its PUBREL. The message has been
+			// delivered, just confirm again.
+			pubcomp := pkts1.NewPubcomp()
+			pubcomp.CopyMessageID(pkt)
+			return c.send(pubcomp)
 		}
 		transaction.Pubrel(pkt)
 		return nil
